@@ -109,6 +109,9 @@ func worker(args []string) {
 	if args[0] == "cancel" && len(args) > 1 {
 		os.Exit(cancel.Worker(args[1]))
 	}
+	if args[0] == "spinner" {
+		os.Exit(decor.SpinnerWorker(args[1:]))
+	}
 	fmt.Fprintf(os.Stderr, "unknown worker %q\n", args[0])
 	os.Exit(2)
 }
